@@ -718,7 +718,16 @@ impl<'a> IrEmitter<'a> {
                     .methods
                     .iter()
                     .filter(|m| !matches!(m.name.as_str(), "__eq__" | "__str__" | "__class_name__" | "__fields__"))
-                    .map(|m| self.emit_trait_method(m))
+                    .map(|m| {
+                        // Only a trait declaration may leave a method without a body; `fn f();` inside an impl is not Rust.
+                        if m.body.is_empty() {
+                            return Err(EmitError::Unsupported(format!(
+                                "method '{}' of the '{}' implementation has no body",
+                                m.name, trait_name
+                            )));
+                        }
+                        self.emit_trait_method(m)
+                    })
                     .collect::<Result<_, _>>()?;
                 let trait_ident = format_ident!("{}", trait_name);
                 quote! {
